@@ -89,7 +89,56 @@ def parseLockIn? (s : String) : Option (Nat × Option Int) :=
       pure (seq, some h)
   | _ => none
 
-def handle : List String → String
+/-- every instruction of a script as the tokenizer reports it, then how and where it stopped -/
+def tokAll (total : Nat) : Nat → List UInt8 → List String → String
+  | 0, _, _ => "fuel"
+  | fuel+1, s, acc =>
+    match tokNext s with
+    | .op o d r =>
+      let h := natToHex o
+      tokAll total fuel r (((if h.length < 2 then "0" ++ h else h) ++ ":" ++ listToHexTok d) :: acc)
+    | .done => (if acc.isEmpty then "-" else ",".intercalate acc.reverse) ++ s!" done@{total - s.length}"
+    | .err => (if acc.isEmpty then "-" else ",".intercalate acc.reverse) ++ s!" err@{total - s.length}"
+
+def b01 (b : Bool) : String := if b then "1" else "0"
+
+def handle1 : List String → String
+  | ["merkleb", w, _, txs] =>
+    match parseBool? w, parseTxs? txs with
+    | some w, some txs =>
+      if txs.any (fun t => t.ins.isEmpty) then "undecodable" else
+      let r := hexBA (mroot H zeroHash (leaves w txs))
+      s!"roll={r} store={r} weight={blockWeight txs}"
+    | _, _ => "bad-op"
+  | ["mvalues", txs] =>
+    match parseTxs? txs with
+    | some txs =>
+      s!"r={hexBA (mroot H zeroHash (leaves false txs))} w={hexBA (mroot H zeroHash (leaves true txs))} again=1"
+    | none => "bad-op"
+  | ["hmb", l, r] =>
+    match hexToList? l, hexToList? r with
+    | some l, some r => hexBA (H (toBA l) (toBA r))
+    | _, _ => "bad-op"
+  | ["iscb", tx] =>
+    match parseTx? tx with
+    | some t => b01 t.isCoinBase ++ b01 t.isCoinBase
+    | none => "bad-op"
+  | ["tok", sc] =>
+    match hexToList? sc with
+    | some s => tokAll s.length (s.length + 1) s []
+    | none => "bad-op"
+  | ["script", sc] =>
+    match hexToList? sc with
+    | some s =>
+      let wp := witnessProgram s
+      let wps := match wp with
+        | some (v, p) => s!"{v}:{listToHexTok p}"
+        | none => "none"
+      let is (v n : Nat) : Bool := match wp with
+        | some (v', p) => v' == v && p.length == n
+        | none => false
+      s!"po={b01 (pushOnlyLast [] s).isSome} sh={b01 (isP2SH s)} iswp={b01 wp.isSome} wp={wps} wpkh={b01 (is 0 20)} wsh={b01 (is 0 32)} tr={b01 (is 1 32)}"
+    | none => "bad-op"
   | ["merkle", w, txs] =>
     match parseBool? w, parseTxs? txs with
     | some w, some txs =>
@@ -180,5 +229,13 @@ def handle : List String → String
     | some s, some h, some bh, some mtp => if sequenceLockActive s h bh mtp then "1" else "0"
     | _, _, _, _ => "bad-op"
   | _ => "bad-op"
+
+def handle : List String → String
+  | ["par", body] => "~".intercalate ((body.splitOn "~").map (fun sub => handle1 (sub.splitOn "^")))
+  | ["vwcb", txs] =>
+    match parseTxs? txs with
+    | some ts => if ts.any (fun t => t.ins.isEmpty) then "undecodable" else handle1 ["vwc", txs]
+    | none => "bad-op"
+  | l => handle1 l
 
 end BV.C13.Driver
